@@ -308,6 +308,8 @@ Proof.
     split; [|exact He]. split; [exact (dict_ok_ext _ _ _ _ _ He K1)|]. split; [|exact K3].
     intros g a pm rest Hrun. destruct (K2 _ _ _ _ Hrun) as [H1 H2].
     split; [exact (dict_ok_ext _ _ _ _ _ He H1)|exact (rest_tok_ext _ _ _ _ _ He H2)].
+  - destruct (n <? 0); [apply Kpid_same; auto|].
+    destruct (n =? 0); [destruct (pids_sorted _) as [[l low]| |]; apply Kpid_same; auto|]. destruct (_ && _); apply Kpid_same; auto.
 Qed.
 
 Lemma Kpid_init : Kpid init.
@@ -435,6 +437,7 @@ Proof.
   - destruct (Nat.leb (nobj s) o); [exact Hf|].
     destruct (is_running_obj _ _ _ _) as [[r ob'] ru'] eqn:Er. cbn [fst mk heap nobj].
     apply flag_upd; [exact Hf|]. exact (is_running_obj_flag _ _ _ _ _ _ _ Er).
+  - destruct (n <? 0); [exact Hf|]. destruct (n =? 0); [destruct (pids_sorted _) as [[l low]| |]; exact Hf|]. destruct (_ && _); exact Hf.
 Qed.
 
 Definition runs (valid : list Z) (s : st) (h : list ev) : st := fold_left (fun s e => fst (step valid s e)) h s.
@@ -702,4 +705,5 @@ Proof.
     apply kept_upd; [exact Hk|]. intros ->. destruct Hk as [_ [A [B C]]].
     rewrite A in Er. destruct (is_running_keep _ _ _ _ _ _ _ _ Er Hf ltac:(congruence) C) as [P [Q R]].
     repeat split; congruence.
+  - destruct (n <? 0); [exact Hk|]. destruct (n =? 0); [destruct (pids_sorted _) as [[l low]| |]; exact Hk|]. destruct (_ && _); exact Hk.
 Qed.
